@@ -157,8 +157,22 @@ class Sched:
                 self.point(tid, (frame.f_code.co_name, frame.f_lineno, frame.f_lasti if opc else -1))
             return local
 
+        plain = tuple(f for f in files if "::" not in f)
+        scoped = [(f.split("::")[0], frozenset(f.split("::")[1].split("|"))) for f in files if "::" in f]
+
+        def wanted(code):
+            fn = code.co_filename
+            if plain and fn.endswith(plain):
+                return True
+            for f, names in scoped:
+                if fn.endswith(f) and code.co_name in names:
+                    return True
+            return False
+
         def glob(frame, event, arg):
-            if frame.f_code.co_filename.endswith(files):
+            # an entry "file.py::f|g" restricts scheduling points to functions f and g of that file (the rest of the file
+            # must not touch shared state); a plain "file.py" makes every line/opcode of the file a scheduling point
+            if wanted(frame.f_code):
                 if opc:
                     frame.f_trace_opcodes = True
                 return local
